@@ -42,7 +42,9 @@ Property clause → theorem
   stamp incl. `BlockHeight = 0`                                           → `accrual_subadditive`
 * "triggering interest calculation more often cannot make a position owe more" at the level of `MsgVaultInterestCalc`
                                                                           → `more_frequent_triggering_not_more`
-* fee switched off and on again: the span without fee is not accrued     → `fee_toggle_restarts_clock`
+* fee switched off and on again: the span without fee is not accrued     → `fee_toggle_restarts_clock` (idle vault)
+  FALSE for a vault deposited into (withdrawn from, drawn, repaid) while the fee is zero: `MsgDeposit` re-stamps the vault with the
+  current height and the zero-fee window is charged at the new fee       → `fee_zero_window_touched_counterexample` (reproduced, D36)
 (d) the bookkeeping around (b) for LOCKERS (`Model/LockerAccrual.lean`: collector entry rate + stamp, locker balance + stamp with the
     `BlockHeight = 0` flag, tracker, net fees; the five locker messages, the rate update `WasmUpdateCollectorLookupTable` with its
     sweep `LockerIterateRewards`, whitelist on / off), over ALL histories of {create, deposit, withdraw, close, reward-calc, rate
@@ -454,6 +456,29 @@ theorem fee_toggle_restarts_clock (s sa sb : St) (ca cb : Ctx) (f : Dec) (pw pw'
     sa.vault.bh = 0 ∧ sa.pair.fee = 0 ∧ sb.pair.fee = f ∧ sb.vault.bh = 0 ∧ sb.pair.bt = cb.now ∧
     since sb.pair.bt sb.vault.bh sb.vault.bt = cb.now :=
   toggle_restarts_clock s sa sb ca cb f pw pw' x hwl hst hf hx ua ub
+
+/-- **Counterexample — a vault deposited into while the fee is zero is charged the zero-fee window** (reproduced on the unchanged
+tree: first `va` sequence of every harness run, values of `math.Pow` as the real run obtained them; defect D36). Debt 1 000 000 at
+fee 0; after one day the owner deposits 5 units of collateral — `MsgDeposit` re-stamps the vault with the current height
+(x/vault/keeper/msg_server.go:300-301), the flag `BlockHeight = 0` set by `MsgCreate` is lost; after a year the fee is set to 10 %
+and `MsgVaultInterestCalc` is delivered in the same block: 99 641 units of interest are booked for 364 days at the new fee, with ZERO
+seconds at a non-zero fee. The idle vault (same history without the deposit) owes nothing: `fee_toggle_restarts_clock`. -/
+theorem fee_zero_window_touched_counterexample :
+    let s0 : VaultAccrual.St := ⟨true, ⟨0, false, 0, 1700000000⟩, ⟨1000000, 0, 0, 1700000000⟩, none⟩
+    let on : Pair := ⟨100000000000000000, false, 102, 1731536000⟩
+    -- the deposit loses the flag
+    msgDeposit s0 ⟨1700086400, 101⟩ (ofBits 4607182418800017408)
+      = .ok ⟨true, ⟨0, false, 0, 1700000000⟩, ⟨1000000, 0, 101, 1700086400⟩, none⟩ ∧
+    updateFee ⟨true, ⟨0, false, 0, 1700000000⟩, ⟨1000000, 0, 101, 1700086400⟩, none⟩ ⟨1731536000, 102⟩ 100000000000000000
+        (ofBits 4607182418800017408)
+      = some ⟨true, on, ⟨1000000, 0, 101, 1700086400⟩, none⟩ ∧
+    -- interest calculation in the block of the switch-on: 364 days are booked
+    msgCalc ⟨true, on, ⟨1000000, 0, 101, 1700086400⟩, none⟩ ⟨1731536000, 103⟩ (ofBits 4607631163137216092)
+      = .ok ⟨true, on, ⟨1000000, 99641, 103, 1731536000⟩, some 259065626814845018⟩ ∧
+    -- the idle vault: nothing
+    msgCalc ⟨true, on, ⟨1000000, 0, 0, 1700000000⟩, none⟩ ⟨1731536000, 103⟩ (ofBits 4607182418800017408)
+      = .ok ⟨true, on, ⟨1000000, 0, 103, 1731536000⟩, some 0⟩ := by
+  decide +kernel
 
 end vault
 
